@@ -2381,7 +2381,7 @@ IW_INLINE struct jbl_node* _jbl_node_find2(struct jbl_node *node, struct jbl_ptr
 }
 
 static struct jbl_node* _jbl_node_detach(struct jbl_node *target, struct jbl_ptr *path) {
-  if (!path) {
+  if (!path || path->cnt < 1) { // The document root cannot be detached from anything
     return 0;
   }
   struct jbl_node *parent = (path->cnt > 1) ? _jbl_node_find(target, path, 0, path->cnt - 1) : target;
@@ -2546,7 +2546,8 @@ static iwrc _jbl_target_apply_patch(struct jbl_node *target, const struct jbl_pa
   jbp_patch_t op = ex->p->op;
   struct jbl_ptr *path = ex->path;
   struct jbl_node *value = ex->p->vnode;
-  bool oproot = ex->path->cnt == 1 && *ex->path->n[0] == '\0';
+  // The whole document: rfc6901 "" (no segments) as well as the historical "/"
+  bool oproot = ex->path->cnt == 0 || (ex->path->cnt == 1 && *ex->path->n[0] == '\0');
 
   if (op == JBP_TEST) {
     iwrc rc = 0;
